@@ -42,5 +42,8 @@ PLAN = {
     }],
     "witnesses": [
         {"match": r"should_store", "src": "witness_two_kinds.rs", "crate": "metrics-util", "file": "metrics-util/src/registry/recency.rs"},
+        {"match": r"should_store", "src": "witness_reregistered.rs", "crate": "metrics-util", "file": "metrics-util/src/registry/recency.rs"},
+        {"match": r"(fn get_recent_metrics|recorder\.verus)", "name": "impl Inner :: fn get_recent_metrics", "src": "witness_expired_label_sets.rs",
+         "crate": "metrics-exporter-prometheus", "file": "metrics-exporter-prometheus/src/exporter/builder.rs"},
     ],
 }
